@@ -162,6 +162,22 @@ def run(tier, seed, lean):
     v, n = family_histories(tier, seed, rng)
     violations += v
     evals += n
+    # an object of the unfinished outer parse that travels through a nested parse (as the argument of a class with parameters)
+    # keeps the position it has in the outer text
+    gm, _ = realrun.compile_grammar('start = /\\s*/ >> (Word |> `lambda w: Holder.parse(w)("qqqqqqqqqqqq")`)\nclass Word { v: /[a-z]+/ }\n'
+                                    'class Holder(w) {\n inner: `w`\n q: /q+/\n}\n')
+    for text, want in (('\n\n   abc', (5, 3, 4)), ('abc', (0, 1, 1)), (' \nab', (2, 2, 1))):
+        evals += 1
+        try:
+            st = gm.parse(text).inner._metadata.position_info.start
+            got = (st.index, st.line, st.column)
+        except Exception as exc:      # noqa: BLE001
+            got = ('X', type(exc).__name__)
+        if got != want:
+            violations.append({'key': f'nested-foreign|{text}', 'sig': 'nested-foreign', 'kind': 'spec', 'seed': seed, 'input': text,
+                               'finding_class': 'nested-parse-foreign-object' if got[0] == want[0] else 'none',
+                               'what': f'an object of the outer parse that was handed to a nested parse starts at {got} after parse({text!r}), '
+                                       f'its place in the outer text is {want}'})
     # modules compiled later (extending this one, or reusing its name) do not alter an existing module
     v, n = later_grammars(seed)
     violations += v
